@@ -136,6 +136,9 @@ def _fields(solver, rs, t):
         if col.dtype.kind == 'c':
             return None
         out[n] = [float(v) for v in col]
+    # the RETURNED energy field (seeded C01-10: right temperature, energy built with another geometry's gamma)
+    if 'specific_internal_energy' in sol.dtype.names and sol['specific_internal_energy'].dtype.kind == 'f':
+        out['sie'] = [float(v) for v in sol['specific_internal_energy']]
     return out
 
 
@@ -180,6 +183,10 @@ def residuals(solver, r, t, hr, ht, Gam, gam, k, flux, c, a):
            Gam * T * dr('velocity'), Gam * T * k * u / r]
     if flux is None:
         out['energy'] = hyd
+        if 'sie' in F0 and all('sie' in Fj for Fj in T_):
+            # the same balance written with the returned specific internal energy: e_t + u e_r + (p/rho)(u_r + k u/r) = 0
+            out['energy.sie'] = [dt('sie'), u * dr('sie'), Gam * T * dr('velocity'), Gam * T * k * u / r]
+            floor['energy.sie'] = floor['energy']
     else:
         al, be, lam0 = flux
         Fl = []
@@ -195,6 +202,9 @@ def residuals(solver, r, t, hr, ht, Gam, gam, k, flux, c, a):
         out['energy.flux'] = fl
         floor['energy.flux'] = abs(Fl[2] / r / rho)
         floor['energy'] = max(floor['energy'], floor['energy.flux'])
+        if 'sie' in F0 and all('sie' in Fj for Fj in T_):
+            out['energy.sie'] = [dt('sie'), u * dr('sie'), Gam * T * dr('velocity'), Gam * T * k * u / r] + fl
+            floor['energy.sie'] = floor['energy']
     res = {}
     for eq, terms in out.items():
         raw = sum(terms)
@@ -228,9 +238,9 @@ def cog(n, eq=None, spec=None, tol=None):
 
     def wanted(e):
         if eq is None:
-            return e in ('mass', 'momentum', 'energy') or (split and e in ('energy.hydro', 'energy.flux'))
+            return e in ('mass', 'momentum', 'energy', 'energy.sie') or (split and e in ('energy.hydro', 'energy.flux'))
         if eq == 'energy':
-            return e == 'energy' or (split and e in ('energy.hydro', 'energy.flux'))
+            return e in ('energy', 'energy.sie') or (split and e in ('energy.hydro', 'energy.flux'))
         return e == eq
 
     def at(solver, fp, r, t, scale_h):
@@ -259,6 +269,8 @@ def cog(n, eq=None, spec=None, tol=None):
             for e, (s, raw, scale) in res.items():
                 if not wanted(e):
                     continue
+                if e == 'energy.sie' and ('energy' not in res or res['energy'][0] > TOL):
+                    continue      # reported only where the balance holds for Gamma T / (gamma - 1): the energy FIELD is what differs
                 if worst is not None:
                     worst[e] = max(worst.get(e, 0.0), s)
                 if s > TOL:
